@@ -16,6 +16,10 @@ SERVER_HELPERS = ['emit', 'send', 'call', 'enter_room', 'leave_room',
                   'session', 'disconnect']
 CLIENT_HELPERS = ['emit', 'send', 'call', 'disconnect']
 FALSY = [0, '', [], False, 0.0, {}]
+# values of every kind a payload / room / sid may have; identity is what is
+# compared, so any conversion or copy on the way is seen
+TYPED = [('a', 'b'), (), ['x', ['y']], {'k': (1, 2)}, b'by', 7, 'txt',
+         (['x'],), 1.0, None]
 
 
 class Sentinel:
@@ -118,7 +122,10 @@ def run(tier, seed, result):
                             and p.name in tnames]
                 for r in range(len(optional) + 1):
                     for subset in itertools.combinations(optional, r):
-                        for falsy in (False, True):
+                        modes = [False, True] + [
+                            ('typed', j) for j in range(
+                                len(TYPED) if len(subset) <= 1 else 1)]
+                        for falsy in modes:
                             for style in ('kw', 'pos'):
                                 ok = one_call(cname, h, ns, regns, target,
                                               calls, results, required,
@@ -157,9 +164,17 @@ def run(tier, seed, result):
 def one_call(cname, h, ns, regns, target, calls, results, required, subset,
              hparams, falsy, style, is_async, loop, result, k, torder):
     supplied = {}
-    for p in required:
-        supplied[p.name] = Sentinel('req-' + p.name)
+    typed = isinstance(falsy, tuple)
+    j = falsy[1] if typed else 0
+    if typed:
+        falsy = False
+    for i, p in enumerate(required):
+        supplied[p.name] = Sentinel('req-' + p.name) if not typed \
+            else TYPED[(j + 3 * i + 1) % len(TYPED)]
     for i, p in enumerate(subset):
+        if typed and p.name != 'namespace':
+            supplied[p.name] = TYPED[(j + i) % len(TYPED)]
+            continue
         if p.name == 'namespace':
             # an explicit override, including the default namespace given
             # explicitly to an object registered elsewhere
@@ -215,6 +230,8 @@ def one_call(cname, h, ns, regns, target, calls, results, required, subset,
         return True
     got = calls[0][1]
     for n, v in supplied.items():
+        if v is None and n in got and got[n] is None:
+            continue
         if n not in got or got[n] is not v:
             result.violation(
                 key + '/' + n, f'{what}: parameter {n!r} arrived as '
